@@ -442,7 +442,7 @@ pub fn build_batch(gens: &[&Generated], ids: &[usize], paths: &BatchPaths, scrat
     Ok(cached)
 }
 
-/// keeps the batch cache below ~3 GB (least recently used first)
+/// keeps the batch cache below ~30 GB (least recently used first)
 pub fn evict_cache(paths: &BatchPaths) {
     let Ok(rd) = std::fs::read_dir(&paths.cache) else { return };
     let mut files: Vec<(std::time::SystemTime, u64, PathBuf)> = rd
@@ -455,7 +455,7 @@ pub fn evict_cache(paths: &BatchPaths) {
     files.sort();
     let mut total: u64 = files.iter().map(|f| f.1).sum();
     for (_, len, p) in files {
-        if total < 3_000_000_000 {
+        if total < 30_000_000_000 {
             break;
         }
         let _ = std::fs::remove_file(&p);
